@@ -46,13 +46,16 @@ type Ctl struct {
 	LeaderEntries map[string]int
 	FolOffers     map[string]int // table -> entries a follower has handed to its pipeline
 	// FollowTables: number of tables a follower subscribes before it may start following
-	FollowTables int
-	timerHits    map[*time.Timer]int
+	FollowTables  int
+	timerHits     map[*time.Timer]int
 	OnLeaderEntry func(leader string, off [2]int64, data []byte, included []common.FollowerID)
 	OnLeaderJoin  func(leader string, f common.FollowerID, table string, off, earliest [2]int64)
 	// HoldScan[table]: park the next scan of the table right after it has taken
 	// its file store and memstore copy (one shot)
 	HoldScan map[string]bool
+	// HoldDone[table]: park the table's next flush right after it has installed the new
+	// file store (hook flush.done, no lock held), before it returns (one shot)
+	HoldDone map[string]bool
 	// extra callback on every hook (fault injection, crash images)
 	OnHook func(ev string, table string)
 }
@@ -85,6 +88,7 @@ func (c *Ctl) ResetScenario() {
 	c.sigs = map[string][]int{}
 	c.holdStep = map[string]bool{}
 	c.HoldScan = map[string]bool{}
+	c.HoldDone = map[string]bool{}
 	c.LeaderEntries = map[string]int{}
 	c.FolOffers = map[string]int{}
 	c.ResetIncarnation()
@@ -305,6 +309,10 @@ func (c *Ctl) Hook(ev string, kv ...interface{}) {
 		c.emit(map[string]interface{}{"a": "FlushSwap", "t": table})
 	case "flush.done":
 		c.FlushDone[table]++
+		if c.HoldDone[table] {
+			c.HoldDone[table] = false
+			c.park(table, "rs", ev, 0, 0)
+		}
 	case "off.temp":
 		c.park(table, "rs", ev, 0, 0)
 		c.acquireStep(table)
